@@ -37,7 +37,10 @@ MANIFEST = dict(
           "replaying every prefix of that sequence into a directory (= the durable state after a crash at that instant) and "
           "starting a fresh engine on it: start-up must succeed, events of completed flushes must be returned exactly once "
           "with their content, the in-progress flush all-or-nothing, counts consistent with what is searchable, later ingest "
-          "must not overwrite recovered data. The recorded operation order is validated against the spec's action order."),
+          "must not overwrite recovered data. The recorded operation order is validated against the spec's action order. "
+          "Histories: timer flushes and rotations (with and without a pending buffer), columns that appear in later blocks, "
+          "agile-tree rotations, flushes that run INSIDE the ingest call (flush=true / ?refresh) and a request larger than "
+          "the write buffer (the ingest call flushes by itself mid-request)."),
     note=("The order validation (Trace_FlushProtocol) covers segments whose rotation has nothing left to flush; a rejected "
           "trace without a property failure is exit 2 (spec drift), not a verdict. "
           "Process-crash model only (completed system calls persist, OS survives): no torn single writes, no power loss. "
@@ -53,6 +56,8 @@ def ev(i):
     e = {"id": i, "x": "v%d" % i, "n": i * 10, "w": "w%d" % (i % 2), "timestamp": 1700000000000 + i * 1000}
     if 50 <= i < 1000:
         e["late"] = "L%d" % i          # a column that first appears in a later block of the segment
+    if 3000 <= i < 4000:
+        e["pad"] = ("p%d" % i) * 9000  # 45 kB: ~43 such events fill the 2 MB write buffer, the ingest call then flushes by itself
     return e
 
 
@@ -69,6 +74,9 @@ def history(name):
         "rotwip": [("bulk", [1, 2]), ("flush",), ("bulk", [3]), ("rotate",), ("bulk", [4]), ("flush",)],
         "f1": [("bulk", [1]), ("flush",)],
         # flushes that run INSIDE the ingest call, alone and on top of events waiting in the buffer, then a timer flush
+        # one request larger than the write buffer: AddEntry flushes the full buffer in the middle of the request (before the
+        # event that would not fit), the rest waits for the timer flush
+        "big": [("bulk", [1, 2]), ("flush",), ("bulk", list(range(3001, 3056))), ("flush",), ("bulk", [3]), ("flush",)],
         "refresh": [("bulk", [1, 2]), ("flush",), ("refresh", 3), ("bulk", [4]), ("refresh", 5), ("refresh", 6), ("bulk", [7]), ("flush",)],
         # the second and third block introduce a column the first block (and the running .sfm) does not know
         "newcol": [("bulk", [1, 2]), ("flush",), ("bulk", [51, 52]), ("flush",), ("bulk", [3, 53]), ("flush",), ("rotate",)],
@@ -89,10 +97,14 @@ def script(hist, data, mark):
     cmds = [{"op": "init", "dir": "data", "pqs": any(st[0] == "query" for st in hist)}]
     calls = []       # (kind, k, ids covered)
     pending = []
-    k = 0
+    k = ji = 0
     for st in hist:
         if st[0] == "bulk":
+            ji += 1
+            cmds.append({"op": "mark", "file": mark, "text": "ingest.begin %d" % ji})
             cmds.append(bulk_cmd(st[1]))
+            cmds.append({"op": "mark", "file": mark, "text": "ingest.done %d" % ji})
+            calls.append(("ingest", ji, list(st[1])))
             pending += st[1]
         elif st[0] == "query":
             cmds.append({"op": "query", "text": st[1], "index": IDX, "start": 1})
@@ -120,12 +132,12 @@ def classify(op):
     return crashfs.file_class(p)
 
 
-def recover_and_check(binary, state_dir, completed, inprog, i_label):
+def recover_and_check(binary, state_dir, completed, inprog, i_label, maybe=()):
     """Fresh engine on one crash state. -> list of (key, what)"""
     bad = []
     dr = None
-    allowed = set(completed) | set(inprog)
-    unfinished = set(inprog) - set(completed)      # events of the flush that was in progress at the crash
+    allowed = set(completed) | set(inprog) | set(maybe)
+    unfinished = (set(inprog) | set(maybe)) - set(completed)      # events of the flush that was in progress at the crash
     try:
         dr = vlib.Driver(binary, cwd=state_dir)
         try:
@@ -162,11 +174,19 @@ def recover_and_check(binary, state_dir, completed, inprog, i_label):
                             key = "C07:content"
                             if h.get(k) is None and i in unfinished:
                                 key = "C07:content:new-column-missing-in-unfinished-flush"
-                            bad.append((key, "%s: event %d field %s = %r, ingested %r" % (stage, i, k, h.get(k), v)))
+                            bad.append((key, "%s: event %d field %s = %s, ingested %s" % (stage, i, k, repr(h.get(k))[:60], repr(v)[:60])))
                             break
-            got_inprog = set(ids) & set(may) - set(must)
-            if may and got_inprog and got_inprog != set(may) - set(must):
-                bad.append(("C07:partial-flush", "%s: the flush in progress is partly visible: %s of %s" % (stage, sorted(got_inprog), sorted(set(may) - set(must)))))
+            # the flush in progress is visible as a whole or not at all; events of a request larger than the write buffer
+            # (ids 3000..3999) are flushed in request order by the ingest call itself: the visible ones must be a prefix of it
+            small = set(i for i in inprog if not 3000 <= i < 4000 and i not in maybe) if stage == "after restart" else set()
+            got_inprog = set(ids) & small - set(must)
+            if small and got_inprog and got_inprog != small - set(must):
+                bad.append(("C07:partial-flush", "%s: the flush in progress is partly visible: %s of %s" % (stage, sorted(got_inprog), sorted(small - set(must)))))
+            bigs = sorted(i for i in (set(may) | set(must)) if isinstance(i, int) and 3000 <= i < 4000)
+            vis = [i in set(ids) for i in bigs]
+            if any(b and not a for a, b in zip(vis, vis[1:])):
+                bad.append(("C07:partial-flush", "%s: events of one large request are visible with holes (they are flushed in request order): visible %s" % (
+                    stage, [i for i, v in zip(bigs, vis) if v][:10])))
             # count must agree with what is searchable
             r2 = dr.cmd("query", text="* | stats count", index=IDX, start=1, end=1900000000000, timeout=60)
             res2 = r2.get("res") or {}
@@ -278,6 +298,8 @@ def spec_events(ops, data, seg_index):
         if op["k"] == "write" and not p.startswith(data):
             t = op["data"].decode().strip()
             kind = t.split(".")[0]
+            if kind == "ingest":
+                continue         # markers around ingest calls (for the crash oracle); not windows of the file protocol
             if ".begin" in t:
                 win = kind
                 if cur_seg == seg_index:
@@ -295,7 +317,9 @@ def spec_events(ops, data, seg_index):
                 items.append(("segmeta", idx))
             nseg_meta += 1
             continue
-        if cls in SPEC_CLASSES and os.path.dirname(p) == mine and win is not None and cur_seg == seg_index:
+        if cls in SPEC_CLASSES and os.path.dirname(p) == mine and cur_seg == seg_index:
+            if win is None:
+                return None      # a flush outside the marked flush / rotation calls (the ingest call flushed a full buffer itself)
             items.append(("op", idx))
     evs, cols = [], []
     sfm_atomic = tree_atomic = True
@@ -495,15 +519,21 @@ def run_history(chk, binary, name, quick, rnd):
             if o["k"] == "write" and not (o.get("path") or "").startswith(data):
                 marks.append((j + 1, o["data"].decode().strip()))
         def status(i):
-            done = set(t.split()[1] for pos, t in marks if pos <= i and ".done" in t)
-            begun = set(t.split()[1] for pos, t in marks if pos <= i and ".begin" in t)
-            completed, inprog = [], []
+            done = set(t.split()[1] for pos, t in marks if pos <= i and ".done" in t and not t.startswith("ingest."))
+            begun = set(t.split()[1] for pos, t in marks if pos <= i and ".begin" in t and not t.startswith("ingest."))
+            completed, inprog, maybe = [], [], []
+            ibegun = set(t.split()[1] for pos, t in marks if pos <= i and t.startswith("ingest.begin"))
+            idone = set(t.split()[1] for pos, t in marks if pos <= i and t.startswith("ingest.done"))
             for kind, k, ids in calls:
-                if str(k) in done:
+                if kind == "ingest":
+                    # an ingest call that has begun may flush by itself (full buffer): its events may be on disk from then on
+                    if str(k) in ibegun:
+                        maybe += [x for x in ids if 3000 <= x < 4000 or str(k) not in idone]
+                elif str(k) in done:
                     completed += ids
                 elif str(k) in begun:
                     inprog += ids
-            return completed, inprog
+            return completed, inprog, [x for x in maybe if x not in completed]
         # build the states
         rp = crashfs.Replayer(data, os.path.join(sc, "work"))
         states = []
@@ -525,9 +555,9 @@ def run_history(chk, binary, name, quick, rnd):
 
         def one(st):
             i, sd, label = st
-            completed, inprog = status(i)
+            completed, inprog, maybe = status(i)
             try:
-                return recover_and_check(binary, sd, completed, inprog, "%s@%d" % (name, i))
+                return recover_and_check(binary, sd, completed, inprog, "%s@%d" % (name, i), maybe)
             finally:
                 vlib.rmtree(sd)
         results = vlib.pmap(one, states, workers=10)
@@ -535,7 +565,7 @@ def run_history(chk, binary, name, quick, rnd):
         for (i, sd, label), bad in zip(states, results):
             chk.replayed(1)
             labels.add(label)
-            completed, inprog = status(i)
+            completed, inprog, maybe = status(i)
             chk.count(("crash", name, i), nontrivial=bool(completed or inprog))
             seen = set()
             for key, what in bad:
@@ -546,13 +576,13 @@ def run_history(chk, binary, name, quick, rnd):
                 where = "after %s, before %s" % (label, (nxt["k"] + ":" + classify(nxt)) if nxt else "end")
                 chk.violation(key + ":" + label.split(":")[-1], "history %s, crash after %d of %d file operations (%s): %s" % (name, i, n, where, what),
                               {"history": name, "steps": [list(s) for s in hist], "crash_after_ops": i, "of": n, "where": where,
-                               "completed_ids": completed, "in_progress_ids": inprog})
+                               "completed_ids": completed[:60], "in_progress_ids": inprog[:60]})
         chk.cov.setdefault("histories", {})[name] = {"file_operations": n, "crash_states_recovered": len(states),
                                                        "distinct_last_op_labels": len(labels)}
         if len(chk.cov["samples"]) < 3:
             i, sd, label = states[len(states) // 2]
             chk.sample({"kind": "crash-state", "history": name, "steps": [list(s) for s in hist], "crash_after_ops": i, "of": n,
-                        "last_op": label, "completed_ids": status(i)[0], "in_progress_ids": status(i)[1]})
+                        "last_op": label, "completed_ids": status(i)[0][:40], "in_progress_ids": status(i)[1][:40]})
         return ops, calls, data
     finally:
         vlib.rmtree(sc)
@@ -572,7 +602,7 @@ def run(chk):
                                    "CountAgrees": "violated" if "CountAgrees" in rc.violated else "holds"}
     binary = vlib.build_driver()
     rnd = random.Random(chk.seed)
-    names = ["f3r", "rotwip", "tree", "newcol", "refresh"] if quick else ["f3r", "rotwip", "tree", "newcol", "refresh", "f1", "r2", "wide"]
+    names = ["f3r", "rotwip", "tree", "newcol", "refresh", "big"] if quick else ["f3r", "rotwip", "tree", "newcol", "refresh", "big", "f1", "r2", "wide"]
     for nm in names:
         run_history(chk, binary, nm, quick, rnd)
     chk.assumptions += [
